@@ -28,6 +28,7 @@ type Mutant struct {
 	Note     string   `json:"note"`
 	Benign   bool     `json:"benign,omitempty"` // behaviour-preserving edit: the check must stay silent
 	More     []Edit   `json:"more,omitempty"`   // further edits belonging to the same variant (e.g. an import)
+	Patch    string   `json:"patch,omitempty"`  // a unified diff (seeded change) applied with patch -p1 instead of Old/New
 }
 
 type Edit struct {
@@ -61,6 +62,24 @@ func loadMutants(verif, prop string) ([]Mutant, error) {
 	for i := range ms {
 		ms[i].Property = prop
 	}
+	// independently seeded changes kept under seeded/<id>/ (patch.diff + meta.json)
+	dirs, _ := filepath.Glob(filepath.Join(verif, "seeded", "*", "meta.json"))
+	sort.Strings(dirs)
+	for _, mp := range dirs {
+		b, err := os.ReadFile(mp)
+		if err != nil {
+			continue
+		}
+		var meta struct {
+			Seed     string `json:"seed"`
+			Property string `json:"property"`
+			Needs    string `json:"needs"`
+		}
+		if json.Unmarshal(b, &meta) != nil || meta.Property != prop {
+			continue
+		}
+		ms = append(ms, Mutant{ID: meta.Seed, Property: prop, Patch: filepath.Join(filepath.Dir(mp), "patch.diff"), Note: "independently seeded change: " + meta.Needs})
+	}
 	return ms, nil
 }
 
@@ -91,6 +110,15 @@ func runMutant(self, repo, verif string, mu Mutant, scratchRoot string, baseline
 		os.WriteFile(filepath.Join(verifCopy, "known_findings.json"), kf, 0o644)
 	}
 	os.WriteFile(filepath.Join(verifCopy, "properties.jsonl"), []byte{}, 0o644)
+	if mu.Patch != "" {
+		cmd := exec.Command("patch", "-p1", "-s", "-i", mu.Patch)
+		cmd.Dir = repoCopy
+		if out, err := cmd.CombinedOutput(); err != nil {
+			res.Status, res.Details = "stale", "seeded patch no longer applies: "+tailLines(string(out), 2)
+			return res
+		}
+		return finishMutant(self, mu, res, repoCopy, verifCopy, baseline)
+	}
 	target := filepath.Join(repoCopy, mu.File)
 	src, err := os.ReadFile(target)
 	if err != nil {
@@ -114,6 +142,10 @@ func runMutant(self, repo, verif string, mu Mutant, scratchRoot string, baseline
 		}
 		os.WriteFile(t2, []byte(strings.Replace(string(s2), e.Old, e.New, 1)), 0o644)
 	}
+	return finishMutant(self, mu, res, repoCopy, verifCopy, baseline)
+}
+
+func finishMutant(self string, mu Mutant, res MutantResult, repoCopy, verifCopy string, baseline map[string]bool) MutantResult {
 	cmd := exec.Command(self, "-property", mu.Property, "-tier", "quick", "-repo", repoCopy, "-verif", verifCopy)
 	cmd.Env = append(os.Environ(), "VERIF_TIER=quick")
 	out, _ := cmd.CombinedOutput()
